@@ -15,6 +15,7 @@ import time
 from . import core
 
 VERIF = os.path.dirname(os.path.dirname(os.path.abspath(__file__)))
+OUT = os.environ.get("VERIF_OUT", VERIF)   # evidence/ and replays/ live in /verif unless a scratch copy of the repo is being examined
 REPLAY_PY = "/venv/bin/python"
 KNOWN_FILE = os.path.join(VERIF, "known_findings.json")
 
@@ -176,14 +177,15 @@ class Check:
                 "claimed": cand["v"], "how": f"{REPLAY_PY} {VERIF}/symx/replay.py <this file>"}
         blob = json.dumps(spec, sort_keys=True, default=repr, ensure_ascii=True)
         h = hashlib.sha256(blob.encode()).hexdigest()[:16]
-        d = os.path.join(VERIF, "replays", self.pid)
+        d = os.path.join(OUT, "replays", self.pid)
         os.makedirs(d, exist_ok=True)
         path = os.path.join(d, h + ".json")
         with open(path, "w", encoding="utf-8") as f:
             f.write(json.dumps(spec, indent=1, default=repr, ensure_ascii=True))
         try:
-            p = subprocess.run([REPLAY_PY, os.path.join(VERIF, "symx", "replay.py"), path], capture_output=True, text=True,
-                               timeout=120, env={**os.environ, "PYTHONPATH": "/repo", "PYTHONDONTWRITEBYTECODE": "1"})
+            rp_ = os.environ.get("VERIF_REPO", "/repo")
+            p = subprocess.run([REPLAY_PY, os.path.join(VERIF, "symx", "replay.py"), path, "--repo", rp_], capture_output=True, text=True,
+                               timeout=120, env={**os.environ, "PYTHONPATH": rp_, "PYTHONDONTWRITEBYTECODE": "1"})
             return path, p.returncode, (p.stdout + p.stderr)[-500:]
         except subprocess.TimeoutExpired:
             return path, 0 if cand["v"].get("kind", "").endswith("HANG") else 5, "replay timeout"
@@ -312,8 +314,8 @@ class Check:
         cov.update(self.extra)
         ev = {"property_id": self.pid, "tier": self.tier, "seed": self.seed, "level": self.level, "coverage": cov,
               "assumptions": self.assumptions, "wall_s": round(wall, 2), "violations": violations}
-        os.makedirs(os.path.join(VERIF, "evidence"), exist_ok=True)
-        with open(os.path.join(VERIF, "evidence", f"{self.pid}.json"), "w", encoding="utf-8") as f:
+        os.makedirs(os.path.join(OUT, "evidence"), exist_ok=True)
+        with open(os.path.join(OUT, "evidence", f"{self.pid}.json"), "w", encoding="utf-8") as f:
             json.dump(ev, f, indent=1, default=repr, ensure_ascii=True)
         print(f"[{self.pid}] tier={self.tier} states={self.states} validated={self.validated} queries={self.queries} "
               f"violations={violations} known={sorted(known_hit)} engine_errors={len(self.engine_errors)} wall={wall:.1f}s")
